@@ -155,7 +155,7 @@ Print Assumptions C19_returns_stable.
    for ever, and the first later server chunk is swallowed too. *)
 Theorem C19_returns_unfixed_refuted :
   exists evs, let f := fst (run_unfixed idle evs) in
-    evs = [EvServer hdr_download; EvLaunch LaunchFail] /\
+    evs = [EvServer hdr_download; EvGraceBegin; EvLaunch LaunchFail] /\
     detect_zmodem hdr_download = Some false /\
     stopped (zs f) = true /\ ~ settled (zs f) /\
     (forall qs, Forall quiet qs ->
@@ -172,9 +172,9 @@ Print Assumptions C19_returns_unfixed_refuted.
 (* the same dead end is reached by a chooser error, and by Ctrl-C typed before the helper
    has been started (the helper is then never started) *)
 Theorem C19_returns_unfixed_other_witnesses :
-  fst (run_unfixed idle [EvServer hdr_download; EvLaunch ChooserErr]) = stuck_state /\
-  fst (run_unfixed idle [EvServer hdr_download; EvInput [Consts.zmodem_ctrl_c]; EvLaunch LaunchOk]) = stuck_state /\
-  fst (run_unfixed idle [EvServer hdr_download; EvLaunch LaunchFail]) = stuck_state.
+  fst (run_unfixed idle [EvServer hdr_download; EvGraceBegin; EvLaunch ChooserErr]) = stuck_state /\
+  fst (run_unfixed idle [EvServer hdr_download; EvGraceBegin; EvInput [Consts.zmodem_ctrl_c]; EvLaunch LaunchOk]) = stuck_state /\
+  fst (run_unfixed idle [EvServer hdr_download; EvGraceBegin; EvLaunch LaunchFail]) = stuck_state.
 Proof. exact (conj (proj2 unfixed_reaches_stuck) (conj unfixed_reaches_stuck_ctrl_c (proj1 unfixed_reaches_stuck))). Qed.
 Print Assumptions C19_returns_unfixed_other_witnesses.
 
@@ -189,17 +189,87 @@ Proof.
 Qed.
 Print Assumptions C19_returns_fixed_on_witness.
 
+(* ---- C19_grace: the grace period of handleZmodemEvent ---- *)
+
+(* The local side waits zmodem_launch_delay_ms before it looks at [stopped] and starts
+   rz / sz ("the server may fail immediately").  From EVERY reachable state in which a
+   session is in that grace period - whether its goroutine has begun (EvGraceBegin) or
+   not - a server chunk carrying the cancel sequence or "cannot open " is shown, the
+   cursor restored, and from then on the wrapper is transparent for ALL continuations
+   that contain no new accepted header: every server chunk goes to the terminal, every
+   typed chunk to the server, and NOTHING else is written anywhere - in particular no
+   helper is started, no cancel sequence and no clean-up "\r" are sent. *)
+Theorem C19_grace_cancel : forall evs0, let f := fst (run idle evs0) in
+  ptr f = true -> lpend (zs f) = true -> stopped (zs f) = false ->
+  forall buf, has_cancel buf = true \/ has_cannot buf = true ->
+  forall evs, Forall no_header evs ->
+    snd (run f (EvServer buf :: evs)) = [OShow; OForward; OTerm buf] ++ flat_map pt_out evs.
+Proof. exact grace_cancel. Qed.
+Print Assumptions C19_grace_cancel.
+
+(* a helper is started by exactly one thing - the end of the grace sleep of a session that
+   is not stopped - and once a session is stopped (by the remote cancel, by Ctrl-C, by
+   anything, during the grace period or later) none is started any more, whatever
+   happens, until the filter starts the next session *)
+Theorem C19_grace_no_launch_after_stop :
+  (forall f e, In OLaunchHelper (snd (step f e)) ->
+     e = EvLaunch LaunchOk /\ stopped (zs f) = false /\ lpend (zs f) = true /\ gbegun (zs f) = true) /\
+  (forall evs f, stopped (zs f) = true -> has_start (snd (run f evs)) = false ->
+     ~ In OLaunchHelper (snd (run f evs))).
+Proof. exact (conj (launch_only_live true) (no_launch_after_stop true)). Qed.
+Print Assumptions C19_grace_no_launch_after_stop.
+
+Example C19_grace_nonvacuous :
+  (* both sub-phases of the grace period are reachable and satisfy the hypotheses *)
+  let f0 := fst (run idle [EvServer hdr_download]) in
+  let f1 := fst (run idle [EvServer hdr_download; EvGraceBegin]) in
+  (ptr f0 = true /\ lpend (zs f0) = true /\ stopped (zs f0) = false /\ gbegun (zs f0) = false) /\
+  (ptr f1 = true /\ lpend (zs f1) = true /\ stopped (zs f1) = false /\ gbegun (zs f1) = true) /\
+  has_cancel Consts.zmodem_cancel_full = true /\
+  snd (run f1 [EvServer Consts.zmodem_cancel_full; EvLaunch LaunchOk; EvInput [108; 115]; EvCleanupFire]) =
+    [OShow; OForward; OTerm Consts.zmodem_cancel_full; OServer [108; 115]; OInput true] /\
+  (* without the cancel the same wake-up does start the helper *)
+  In OLaunchHelper (snd (run f1 [EvLaunch LaunchOk])).
+Proof. vm_compute. repeat split; auto. Qed.
+
+(* ---- C19_early_ctrl_c: Ctrl-C before the session's goroutine has begun ---- *)
+
+(* The pinned code violates "Ctrl-C at any time": the session is visible to sendInput
+   before handleZmodemEvent has stored its writers; a lone Ctrl-C in that window (kept
+   open by a terminal that is slow to take the hide-cursor sequence) makes
+   handleZmodemError write to a nil writer and the client process dies.  Witness
+   (replayed on the real filter by the harness in a child process): *)
+Theorem C19_early_ctrl_c_pinned_refuted :
+  exists evs, evs = [EvServer hdr_download; EvInput [Consts.zmodem_ctrl_c]] /\
+              In OCrash (snd (run_pinned idle evs)).
+Proof.
+  eexists. split; [reflexivity|]. rewrite pinned_crashes. cbn [In]. auto 6.
+Qed.
+Print Assumptions C19_early_ctrl_c_pinned_refuted.
+
+(* with hooks/fix_zmodem_early_ctrl_c.diff (the model [step]) nothing ever crashes, the
+   pinned code differs from it in that window only, and the witness history ends with the
+   cancel sequence sent, the helper never started and the session cleaned up *)
+Theorem C19_early_ctrl_c :
+  (forall evs f, ~ In OCrash (snd (run f evs))) /\
+  (forall f e, (forall buf, e = EvInput buf -> crash_window f buf = false) -> step_pinned f e = step f e) /\
+  snd (run idle [EvServer hdr_download; EvInput [Consts.zmodem_ctrl_c]; EvGraceBegin; EvLaunch LaunchOk; EvCleanupFire]) =
+    [OForward; OTerm hdr_download; OHide; OStart false;
+     OCancelServer; OArm TCleanup; OMsg MStopped; OInput false; OServer Consts.zmodem_cleanup_enter].
+Proof. exact (conj (no_crash_run true) (conj pinned_agrees early_ctrl_c_fixed)). Qed.
+Print Assumptions C19_early_ctrl_c.
+
 (* ---- non-vacuity ---- *)
 Example C19_nonvacuous_session :
   (* Ctrl-C on a running download with a silent helper: stopped, helper alive, kill scheduled *)
-  let f := fst (run idle [EvServer hdr_download; EvLaunch LaunchOk; EvInput [3]]) in
+  let f := fst (run idle [EvServer hdr_download; EvGraceBegin; EvLaunch LaunchOk; EvInput [3]]) in
   stopped (zs f) = true /\ cleaned (zs f) = false /\ tcu (zs f) = false /\ hp (zs f) = HRun /\ ksched (zs f) = true /\
-  terminating (fst (run idle [EvServer hdr_download; EvLaunch LaunchOk])) (EvInput [3]) /\
-  helper_listening (fst (run idle [EvServer hdr_download; EvLaunch LaunchOk])) (EvInput [3]).
+  terminating (fst (run idle [EvServer hdr_download; EvGraceBegin; EvLaunch LaunchOk])) (EvInput [3]) /\
+  helper_listening (fst (run idle [EvServer hdr_download; EvGraceBegin; EvLaunch LaunchOk])) (EvInput [3]).
 Proof. vm_compute. repeat split; try reflexivity; intros; discriminate. Qed.
 
 Example C19_nonvacuous_passthrough :
   passthrough idle /\
-  passthrough (fst (run idle [EvServer hdr_download; EvLaunch LaunchFail; EvCleanupFire])) /\
-  ptr (fst (run idle [EvServer hdr_download; EvLaunch LaunchFail; EvCleanupFire])) = true.
+  passthrough (fst (run idle [EvServer hdr_download; EvGraceBegin; EvLaunch LaunchFail; EvCleanupFire])) /\
+  ptr (fst (run idle [EvServer hdr_download; EvGraceBegin; EvLaunch LaunchFail; EvCleanupFire])) = true.
 Proof. split; [left; reflexivity|]. split; [right; vm_compute; auto | vm_compute; reflexivity]. Qed.
